@@ -309,7 +309,34 @@ pub fn tokenize(src: &str) -> Vec<Tok> {
                             while matches!(lx.peek(0), Some(' ') | Some('\t') | Some('\n')) {
                                 lx.i += 1;
                             }
-                            if matches!(lx.peek(0), Some('"') | Some('\'')) {
+                            // a body with quotes, parentheses or inner whitespace is not a url-token
+                            // (CSS: bad-url); Sass reads such text as an ordinary function call
+                            let functionish = {
+                                let mut k = lx.i;
+                                let mut seen_ws_then_text = false;
+                                let mut ws = false;
+                                let mut bad = false;
+                                while let Some(c) = chars.get(k).copied() {
+                                    if c == ')' {
+                                        break;
+                                    }
+                                    if c == '"' || c == '\'' || c == '(' {
+                                        bad = true;
+                                        break;
+                                    }
+                                    if c == ' ' || c == '\t' || c == '\n' {
+                                        ws = true;
+                                    } else if ws {
+                                        seen_ws_then_text = true;
+                                    }
+                                    if c == '\\' {
+                                        k += 1;
+                                    }
+                                    k += 1;
+                                }
+                                bad || seen_ws_then_text
+                            };
+                            if matches!(lx.peek(0), Some('"') | Some('\'')) || functionish {
                                 lx.i = save;
                                 out.push(Tok::Function(name));
                             } else {
